@@ -6,7 +6,7 @@ Open Scope Z_scope.
 Open Scope list_scope.
 
 Definition nonbind (o : op) : bool :=
-  match o with OBindEnter | OBindExit | OBindRaise _ => false | _ => true end.
+  match o with OBindEnter | OBindExit | OBindRaise _ | OSync _ => false | _ => true end.
 
 (* ---- the object-level part of an op never touches the bind stack ---- *)
 
@@ -187,6 +187,7 @@ Fixpoint stays_inside (d : nat) (ops : list op) : bool :=
   | OBindEnter :: t => stays_inside (S d) t
   | OBindExit :: t => (2 <=? d)%nat && stays_inside (d - 1) t
   | OBindRaise k :: t => (k <? d)%nat && stays_inside (d - k) t
+  | OSync _ :: _ => false          (* a sync legitimately sends what was collected before it *)
   | _ :: t => stays_inside d t
   end.
 
@@ -228,6 +229,7 @@ Proof.
       apply Nat.ltb_lt in Hin.
       unfold step. cbn [fst snd set_stack stack]. split; [reflexivity|]. exists (d - k)%nat.
       rewrite Hs. rewrite drop_n_length by (rewrite Hd; lia). rewrite Hd. split; [lia|]. split; [lia|]. exact HT.
+    + discriminate Hin.
 Qed.
 
 Lemma stays_inside_cons : forall d o t, stays_inside d (o :: t) = true -> stays_inside d [o] = true.
@@ -235,6 +237,7 @@ Proof.
   intros d o t H. destruct o; simpl in *; try reflexivity.
   - apply andb_true_iff in H. destruct H as [H _]. rewrite H. reflexivity.
   - apply andb_true_iff in H. destruct H as [H _]. rewrite H. reflexivity.
+  - discriminate H.
 Qed.
 
 Lemma run_deep : forall V ops s d,
@@ -268,4 +271,55 @@ Proof.
   rewrite HR. simpl. split.
   - constructor; [reflexivity|]. apply Forall_app. split; [exact Hsil|]. constructor; [reflexivity | constructor].
   - subst k. clear. induction (stack s1) as [|x l IH]; simpl; auto.
+Qed.
+
+(* ---- server.sync() inside a block: the block is sent in pieces, nothing is lost ---- *)
+
+Lemma flush_outermost : forall top, exists e,
+  route [] (flush top) = ([], flushed top, e) /\ (wire_msgs top <> None -> e = None).
+Proof.
+  intros top. unfold flush, flushed. destruct top as [|m l].
+  - exists None. split; [reflexivity | auto].
+  - cbn [route wire_msgs]. destruct (wire_msg m); [|eexists; split; [reflexivity | intros C; contradiction C; reflexivity]].
+    destruct (wire_msgs l); [|eexists; split; [reflexivity | intros C; contradiction C; reflexivity]].
+    exists None. split; [reflexivity | auto].
+Qed.
+
+Definition sync_event (id : Z) : wev := WBundle PNone [("/sync"%string, [AInt id])].
+
+Lemma sync_outermost : forall top id, wire_msgs top <> None ->
+  sync_stack [top] id = ([[]], flushed top ++ [sync_event id], None).
+Proof.
+  intros top id H. unfold sync_stack. cbn [List.length sync_fuel].
+  destruct (flush_outermost top) as [e [E He]]. rewrite E. rewrite (He H). reflexivity.
+Qed.
+
+(* enter; b1; sync; b2; exit  (b1, b2 any non-bind ops): the commands of b1 go out as one bundle
+   right before the '/sync', those of b2 as one bundle at the exit; each in issue order, none twice,
+   none lost *)
+Lemma bind_sync_pieces : forall V s b1 b2 id,
+  stack s = [] -> forallb nonbind b1 = true -> forallb nonbind b2 = true ->
+  let s1 := set_stack s [[]] in
+  let s2 := set_stack (snd (run V s1 b1)) [[]] in
+  wire_msgs (issued V s1 b1) <> None ->
+  let r := run V s (OBindEnter :: b1 ++ OSync id :: b2 ++ [OBindExit]) in
+  exists rb1 rb2 ex,
+    fst r = ([], None) :: rb1 ++ (flushed (issued V s1 b1) ++ [sync_event id], None) :: rb2 ++ [ex] /\
+    silent rb1 /\ silent rb2 /\ fst ex = flushed (issued V s2 b2) /\ stack (snd r) = [].
+Proof.
+  intros V s b1 b2 id Hs H1 H2 s1 s2 Hw r. subst r.
+  assert (HE : step V s OBindEnter = (s1, [], None)) by (unfold step; rewrite Hs; reflexivity).
+  rewrite run_cons, HE, run_app.
+  destruct (run_inside V b1 s1 [] [] (eq_refl _) H1) as [Hsil1 Hstk1].
+  subst s2. destruct (run V s1 b1) as [rb1 sa] eqn:R1. cbn [fst snd] in *.
+  rewrite run_cons.
+  assert (HS : step V sa (OSync id) = (set_stack sa [[]], flushed (issued V s1 b1) ++ [sync_event id], None)).
+  { unfold step. rewrite Hstk1. cbn [app]. rewrite (sync_outermost _ id Hw). reflexivity. }
+  rewrite HS. rewrite run_app.
+  destruct (run_inside V b2 (set_stack sa [[]]) [] [] (eq_refl _) H2) as [Hsil2 Hstk2].
+  destruct (run V (set_stack sa [[]]) b2) as [rb2 sb] eqn:R2. cbn [fst snd] in *.
+  destruct (exit_outermost V sb _ Hstk2) as [X1 X2].
+  rewrite run_cons. destruct (step V sb OBindExit) as [[sc evs] e] eqn:S. cbn [fst snd] in X1, X2. subst sc evs.
+  exists rb1, rb2, (flushed (issued V (set_stack sa [[]]) b2), e).
+  cbn [fst snd run]. repeat split; auto.
 Qed.
